@@ -29,7 +29,7 @@ import (
 )
 
 const (
-	caseTimeout = 8 * time.Second
+	caseTimeout = 5 * time.Second
 	heapLimit   = 3 << 30
 )
 
